@@ -163,6 +163,16 @@ def slowly_ramped_field(x, y, z, *, t, B=0.5, rate=0.05):
     return np.stack([-s * B * y / 2, s * B * x / 2, np.zeros_like(x)], axis=1)
 
 
+def stepped_field(x, y, z, *, t, B=0.4):
+    """jumps once (at t = 0.02) and stays: operators that miss that refresh stay stale for the rest of the run"""
+    s = 0.2 if t < 0.02 else 1.0
+    return np.stack([-s * B * y / 2, s * B * x / 2, np.zeros_like(x)], axis=1)
+
+
+def c10_eps(r, *, t):
+    return 0.9 + 0.1 * np.cos(3.0 * t + r[0])
+
+
 def solver_level(ctx, stop_first=False):
     """"no step ever runs with stale or partially updated operators": inside real runs, at every evaluation of the
     psi update, the covariant operators in use equal operators built from scratch for the latest vector potential
@@ -180,6 +190,10 @@ def solver_level(ctx, stop_first=False):
         dict(name="td", dev="bar", td=True, cur={"source": 2.0, "drain": -2.0}, o=dict()),
         # a thermalisation stage first: the clock restarts at 0, so the field jumps back to its t = 0 value
         dict(name="td+thermalisation", dev="bar", td=True, cur={"source": 2.0, "drain": -2.0}, o=dict(skip_time=0.05, solve_time=0.04)),
+        # Ctrl-C in the middle of an update (inside the evaluation of a time-dependent epsilon, after the new potential
+        # has been evaluated), the user answers "continue": the same step is run again, and everything after it
+        dict(name="td-step+interrupted-and-resumed", dev="bar", td="stepped", eps=True, interrupt_at=6, cur={"source": 2.0, "drain": -2.0}, o=dict(pause_on_interrupt=True, solve_time=0.06)),
+        dict(name="td+interrupted-and-resumed", dev="bar", td=True, eps=True, interrupt_at=4, cur={"source": 2.0, "drain": -2.0}, o=dict(pause_on_interrupt=True, solve_time=0.05)),
         dict(name="td-slow-ramp-small-steps", dev="bar", td="slow", cur={"source": 2.0, "drain": -2.0}, o=dict(dt_init=1e-4, solve_time=4e-3)),
         dict(name="td-slow-ramp+gauge-offset", dev="bar", td="slow", offset=(30.0, -20.0), cur={"source": 2.0, "drain": -2.0}, o=dict(dt_init=1e-3, solve_time=2e-2)),
     ]
@@ -194,6 +208,8 @@ def solver_level(ctx, stop_first=False):
             A = tdgl.Parameter(slowly_ramped_field, time_dependent=True)
             if cfg.get("offset"):
                 A = A + tdgl.Parameter(c04_offset, cx=cfg["offset"][0], cy=cfg["offset"][1])
+        elif cfg["td"] == "stepped":
+            A = tdgl.Parameter(stepped_field, time_dependent=True)
         else:
             A = tdgl.Parameter(ramped_field, time_dependent=True) if cfg["td"] else 0.5
         opts = runs.options(**dict(dict(solve_time=0.08, dt_init=5e-3, adaptive=False, save_every=100), **cfg["o"]))
@@ -228,11 +244,28 @@ def solver_level(ctx, stop_first=False):
                 log["bad"] = dict(psi_step=log["checked"], difference=d)
             return o_step(self, *a, **kw)
 
+        import builtins
+
+        o_eps, o_input = TDGLSolver.update_epsilon, builtins.input
+        ecalls = dict(n=0, fired=False)
+
+        def eps_hook(self, time):
+            ecalls["n"] += 1
+            if cfg.get("interrupt_at") and ecalls["n"] == cfg["interrupt_at"] and not ecalls["fired"]:
+                ecalls["fired"] = True
+                raise KeyboardInterrupt()
+            return o_eps(self, time)
+
         TDGLSolver.update, TDGLSolver.update_applied_vector_potential, TDGLSolver.get_induced_vector_potential, TDGLSolver.adaptive_euler_step = upd, app, ind, stp
+        TDGLSolver.update_epsilon = eps_hook
+        builtins.input = lambda *a, **k: "y"
         try:
-            tdgl.solve(dev, opts, applied_vector_potential=A, terminal_currents=cfg.get("cur"))
+            tdgl.solve(dev, opts, applied_vector_potential=A, terminal_currents=cfg.get("cur"), **(dict(disorder_epsilon=c10_eps) if cfg.get("eps") else {}))
         finally:
             TDGLSolver.update, TDGLSolver.update_applied_vector_potential, TDGLSolver.get_induced_vector_potential, TDGLSolver.adaptive_euler_step = o_upd, o_app, o_ind, o_step
+            TDGLSolver.update_epsilon, builtins.input = o_eps, o_input
+        if cfg.get("interrupt_at"):
+            ctx.count("runs_interrupted_mid_update_and_resumed" if ecalls["fired"] else "interrupt_injection_not_reached")
         ctx.case(("in-solver", cfg["name"]), nontrivial=log["checked"] > 3)
         ctx.count("psi_steps_checked_in_real_runs", log["checked"])
         ctx.tol("operators in use vs rebuilt for the latest vector potential (real runs)", log["worst"], 1e-12)
